@@ -24,7 +24,7 @@ CHECK = {
         {"name": "ctor", "variant": "asan", "harness": "c17_constructors.cpp",
          "cases": {"quick": 2400, "thorough": 60000}, "params": {"mode": "ctor"}, "case_timeout": 120},
         {"name": "levelset", "variant": "asan", "harness": "c17_constructors.cpp",
-         "cases": {"quick": 96, "thorough": 3000}, "params": {"mode": "levelset"}, "case_timeout": 300},
+         "cases": {"quick": 48, "thorough": 1600}, "params": {"mode": "levelset"}, "case_timeout": 300},
         {"name": "xform", "variant": "asan", "harness": "c17_constructors.cpp",
          "cases": {"quick": 800, "thorough": 30000}, "params": {"mode": "xform"}, "case_timeout": 120},
         {"name": "quality", "variant": "asan", "harness": "c17_constructors.cpp",
@@ -44,6 +44,11 @@ CHECK = {
         "with either truncation-then-round-up (the code) or plain round-up accepted; SetCircularSegments(k>=3) forces "
         "exactly k; Sphere rounds its count up to a multiple of four (documented 'always rounded up'); a partial "
         "Revolve with default segments uses at least one division",
+        "Warp never re-orients triangles (documented as unchecked): orientation-reversing warp functions are only "
+        "observed (observed_reflecting_warp_* counters: the result is inside-out), affine Warps used for verdicts "
+        "have positive determinant",
+        "a Revolve whose profile touches the axis with a single vertex has odd Euler characteristic (pinched "
+        "surface); that is C01's clause and is counted here, not judged (odd_euler_characteristic_observed_*)",
         "Warp with a nonlinear function: only the documented vertex map is checked (vertex set bit-equal to f(vertices), "
         "triangle count unchanged); affine Warp is treated like Transform",
         "points decide only if the winding number is within 0.01 of an integer; rounding band tau = 1e-9*extent; "
